@@ -308,8 +308,12 @@ func (m *lifecycleReconcilerStorageMiddleware) expireNoncurrentObjectVersions(ct
 		if isCancelled(cancelTask) {
 			return
 		}
+		// ListObjectVersions returns the versions of a key newest first. Keep
+		// that succession order (only make sure the current version leads):
+		// LastModified is bumped by tagging, transitions and is_latest flips,
+		// so ordering by it does not tell which version is newer.
 		sort.SliceStable(versions, func(i, j int) bool {
-			return versions[i].LastModified.After(versions[j].LastModified)
+			return versions[i].IsLatest && !versions[j].IsLatest
 		})
 		newerNoncurrentVersions := 0
 		for i := range versions {
@@ -363,8 +367,12 @@ func (m *lifecycleReconcilerStorageMiddleware) transitionNoncurrentObjectVersion
 		if isCancelled(cancelTask) {
 			return
 		}
+		// ListObjectVersions returns the versions of a key newest first. Keep
+		// that succession order (only make sure the current version leads):
+		// LastModified is bumped by tagging, transitions and is_latest flips,
+		// so ordering by it does not tell which version is newer.
 		sort.SliceStable(versions, func(i, j int) bool {
-			return versions[i].LastModified.After(versions[j].LastModified)
+			return versions[i].IsLatest && !versions[j].IsLatest
 		})
 		newerNoncurrentVersions := 0
 		for i := range versions {
